@@ -399,6 +399,36 @@ def _store_shape(sess):
                             sess.stats.get("fired_crash_mid_operation", 0))).encode())
 
 
+def repo_function(exc):
+    """Name of the innermost repository function in the traceback of exc (None if the exception did not
+    pass through the code under test, i.e. it is a bug of the harness itself)."""
+    import traceback
+    fn = None
+    for fr in traceback.extract_tb(exc.__traceback__):
+        if "leuvenmapmatching" in fr.filename:
+            fn = fr.name
+    return fn
+
+
+def judged(prop):
+    """Decorator for World-B evaluators: an exception raised by the repository while the simulator builds,
+    queries or reopens a store is a violation of the property (the reference model expects an answer), not a
+    harness failure."""
+    def deco(fn_eval):
+        def wrapper(doc):
+            try:
+                return fn_eval(doc)
+            except Exception as exc:
+                fn = repo_function(exc)
+                if fn is None:
+                    raise
+                v = V("%s/raises/%s/%s" % (prop, type(exc).__name__, fn), str(exc)[:200], -1)
+                return {"violations": [v], "sig": "raised|" + fn, "nontrivial": True, "stats": {"ops": len(doc.get("ops", []))}}
+        wrapper.__name__ = fn_eval.__name__
+        return wrapper
+    return deco
+
+
 def sorted_rows(rows):
     return sorted(rows, key=repr)
 
@@ -638,6 +668,7 @@ def check_midcrash(sess, i, op, mc, commit_points):
     return vs
 
 
+@judged("C11")
 def eval_C11(doc):
     sess = StoreSession(doc, use_sqlite=True, use_inmem=True)
     clock = SimClock(doc.get("clock"))
@@ -759,6 +790,7 @@ def compare_backends(sess, i):
     return vs
 
 
+@judged("C12")
 def eval_C12(doc):
     sess = StoreSession(doc, use_sqlite=True, use_inmem=True)
     clock = SimClock(doc.get("clock"))
@@ -830,7 +862,7 @@ def eval_C12(doc):
             c = compare(oa_.obs, ob.obs)
             if c.startswith("diff"):
                 from .twins import tie_upstream
-                if c != "diff:idx" and tie_upstream(doc["cfg"], a, b):
+                if tie_upstream(doc["cfg"], a, b):
                     sess.bump("inconclusive_tie_upstream")
                 else:
                     sess.vs.append(V("C12/match/" + c, "inmem=%r sqlite=%r" % ((oa_.obs["idx"], oa_.obs["bestE"]), (ob.obs["idx"], ob.obs["bestE"])), len(doc["ops"])))
@@ -905,6 +937,7 @@ def diff_battery(a, b):
     return None
 
 
+@judged("C18")
 def eval_C18(doc):
     vs = []
     stats = {}
